@@ -195,6 +195,9 @@ func (w *hijackWatch) receive() {
 	defer utilruntime.HandleCrash()
 	for {
 		select {
+		case <-w.done:
+			// stopped: do not wait for the source to close its channel, not every source does that on Stop
+			return
 		case event, ok := <-w.source.ResultChan():
 			if !ok {
 				return
